@@ -25,8 +25,8 @@ def run(repo, chk):
     chk.note_undecided('bit-identical matrices (pickle / scipy)', 're-decoding equality (float behaviour)')
     R = Rules(repo, chk)
     refcheck.run_all(R, repo, chk, 'RECUR', 'logits_ref.py', WHAT)
-    R.run('TABLE', table, repo, Soft(chk))
-    R.run('GUARD', guard, repo, Soft(chk))
+    R.run('TABLE', table, repo, Soft(chk), soft_for=[L + ':PageLayout.load_logits', L + ':PageLayout._gen_logits'])
+    R.run('GUARD', guard, repo, Soft(chk), soft_for=[L + ':PageLayout.load_logits', L + ':PageLayout._gen_logits'])
     R.run('SIBLING', sibling, repo, Soft(chk))
     chk.expect('TABLE', 6)
     chk.expect('GUARD', 4)
